@@ -780,7 +780,10 @@ ASSUMPTIONS = ['coordinates, constants and exponents are dyadic rationals or +-i
                'outside the model (rejected by IntervalProd/RectGrid/ConstWeighting constructors)',
                'objects are immutable while observed (the hash of an array weighting reads the array bytes)',
                'equal hash keys give equal Python hashes (hash is a function of the tuple structure and leaf values)',
-               'DiscretizedSpace.tspace is a NumpyTensorSpace; float128/complex256 dtypes left out']
+               'DiscretizedSpace.tspace is a NumpyTensorSpace; float128/complex256 dtypes left out; MatrixWeighting dense only',
+               'element(): inputs are elements, ndarrays, regular nested lists, scalars with exactly representable '
+               'real values that survive conversion to the target dtype unchanged (integers for integer targets); '
+               'the order=/data_ptr=/cast=False options and callables are not modelled']
 TRUSTED = ['harness/c20.py build/describe (descriptor <-> real object), checked against each other on every case',
            'C20/Model.v eqt uses self-first argument order in the nested membership tests of SetUnion/SetIntersection '
            '(immaterial because eqt is proved symmetric)']
@@ -1772,19 +1775,22 @@ def probes(rng, tier):
     return out
 
 
-LEVEL_TEXT = ('Proof: over descriptors of all constructible sets, fields, interval products, grids, partitions, weightings, '
-              'tensor / discretized / arbitrarily nested weighted product spaces (any nesting depth, any list length, real '
-              'coordinates incl. +-inf), Coq proves that == as transcribed from the paired __eq__ methods never raises and is '
+LEVEL_TEXT = ('Proof: over descriptors of all constructible sets, fields, interval products, grids, partitions, weightings '
+              '(const / array / matrix / custom, both class families), tensor / discretized / arbitrarily nested weighted product '
+              'spaces (any depth, any list length, real coordinates incl. +-inf), Coq proves that == as transcribed from the '
+              'paired __eq__ methods (three-valued: True/False/raises, with Python evaluation order) never raises and is '
               'reflexive, symmetric and transitive, that a == b implies equivalent hashed tuples (hence equal hashes) and equal '
-              'hashability, and that x in S is S == x.space -- for the code with two recorded one-line repairs; for the CURRENT code '
-              'the same statements are refuted by witnesses (IntervalProd of different ndim compare equal by broadcasting or raise; '
-              'array weightings of two classes are equal with different hashes). The hashed tuples are regenerated from the '
-              '__hash__ sources on every run and proved to be the model keys for every object. For astype / real / complex '
-              'counterparts and product-space indexing it proves, for all trees, that shapes/partitions, dtype, leaf weightings '
-              '(when passed on) are those of the source, that Python slice positions are always valid indices and that '
-              'pspace[slice]/pspace[int] are exactly the selected components; loss of product weightings / integer-target '
-              'weightings in the current code is refuted by witnesses. element(), element indexing vs arrays, byaxis are '
-              'validated (probes + correspondence), not proved.')
+              'hashability, and that x in S is S == x.space -- for the code with two recorded one-line repairs; for the CURRENT '
+              'code the full statements are refuted by witnesses (IntervalProd of different ndim compare equal by broadcasting '
+              'or raise; array weightings of two classes are equal with different hashes) and the partial statement (all '
+              'interval products of one ndim) is proved. The hashed tuples are regenerated from the __hash__ sources on every '
+              'run and proved to be the model keys for every object; a PrimFloat lemma over all binary64 floats justifies the '
+              'grid\'s (cv + 0.0).tobytes(). element(): x in S gives x itself, otherwise exactly the input values leaf by leaf, '
+              'for all nested trees. astype / real / complex counterparts / product-space indexing: shapes, partitions, dtype, '
+              'real/complex-ness (regenerated odl.util tables), leaf weightings are those of the source; Python slice positions '
+              'are always valid indices; pspace[slice]/pspace[int] are exactly the selected components; loss of product / '
+              'integer-target weightings in the current code is refuted by witnesses. Element indexing vs arrays, byaxis '
+              'theorems, element(order=, cast=False) are validated only (probes + correspondence).')
 LEVEL_NOTE = ('Trusted: the hand transcription of __eq__/__contains__/astype/__getitem__ (tied by the in-Coq correspondence on '
               '~1300 quick / ~7700 thorough structured cases incl. raise outcomes), the fail-closed AST reader of the __hash__ '
               'tuples, descriptor build/describe in the harness; real-number idealisation of floats (NaN, signed-zero bytes out '
